@@ -124,6 +124,7 @@ func (m *meta) start() {
 
 	reason := m.behavior.Start()
 	// meta process terminated
+	lib.VerifPoint("meta.start.term", m.id.ID[0])
 	old := atomic.SwapInt32(&m.state, int32(gen.MetaStateTerminated))
 	if old != int32(gen.MetaStateTerminated) {
 		m.p.node.aliases.Delete(m.id)
@@ -139,6 +140,7 @@ func (m *meta) handle() {
 	var reason error
 	var result any
 
+	lib.VerifPoint("meta.enter", m.id.ID[0])
 	if atomic.CompareAndSwapInt32(&m.state, int32(gen.MetaStateSleep), int32(gen.MetaStateRunning)) == false {
 		// running or terminated
 		return
@@ -244,6 +246,7 @@ func (m *meta) handle() {
 			}
 
 			// terminated
+			lib.VerifPoint("meta.term", m.id.ID[0])
 			old := atomic.SwapInt32(&m.state, int32(gen.MetaStateTerminated))
 			if old != int32(gen.MetaStateTerminated) {
 				m.p.node.aliases.Delete(m.id)
@@ -253,12 +256,14 @@ func (m *meta) handle() {
 			return
 		}
 
+		lib.VerifPoint("meta.tosleep", m.id.ID[0])
 		if atomic.CompareAndSwapInt32(&m.state, int32(gen.MetaStateRunning), int32(gen.MetaStateSleep)) == false {
 			// terminated. seems the main loop is stopped. do nothing.
 			return
 		}
 
 		// check if we got a new message
+		lib.VerifPoint("meta.recheck", m.id.ID[0])
 		if m.system.Item() == nil {
 			if m.main.Item() == nil {
 				// no messages
@@ -267,6 +272,7 @@ func (m *meta) handle() {
 		}
 
 		// got some... try to use this goroutine
+		lib.VerifPoint("meta.reacquire", m.id.ID[0])
 		if atomic.CompareAndSwapInt32(&m.state, int32(gen.MetaStateSleep), int32(gen.MetaStateRunning)) == false {
 			// another goroutine is already running
 			return
